@@ -19,7 +19,59 @@ pub(crate) struct Index<K> {
     pub paths: DbPaths,
     pub state: Arc<RwLock<IndexState<K>>>,
     pub wal: Mutex<WalManager>,
-    pub pending_intents: Mutex<HashMap<K, BlobHash>>,
+    pub pending_intents: Mutex<PendingIntents<K>>,
+}
+
+/// Commits that have put (or are about to put) their blob into the CAS directory but are not in
+/// the index yet.
+///
+/// Dereferences to the `key -> latest intent hash` map. Which blobs must not be deleted is
+/// tracked separately, as a count per hash: two in-flight commits may target the same key (the
+/// map then only remembers the latest) or store the same content under different keys, and each
+/// of them needs its blob to survive until it has been applied to the index.
+pub(crate) struct PendingIntents<K> {
+    by_key: HashMap<K, BlobHash>,
+    protected: HashMap<BlobHash, usize>,
+}
+
+impl<K> Default for PendingIntents<K> {
+    fn default() -> Self {
+        Self { by_key: HashMap::default(), protected: HashMap::default() }
+    }
+}
+
+impl<K> std::ops::Deref for PendingIntents<K> {
+    type Target = HashMap<K, BlobHash>;
+
+    fn deref(&self) -> &Self::Target {
+        &self.by_key
+    }
+}
+
+impl<K> std::ops::DerefMut for PendingIntents<K> {
+    fn deref_mut(&mut self) -> &mut Self::Target {
+        &mut self.by_key
+    }
+}
+
+impl<K> PendingIntents<K> {
+    /// Returns true while at least one in-flight commit needs the blob `hash`.
+    pub(crate) fn is_protected(&self, hash: &BlobHash) -> bool {
+        self.protected.contains_key(hash)
+    }
+
+    fn protect(&mut self, hash: BlobHash) {
+        *self.protected.entry(hash).or_insert(0) += 1;
+    }
+
+    fn unprotect(&mut self, hash: &BlobHash) {
+        if let Some(count) = self.protected.get_mut(hash) {
+            *count -= 1;
+            if *count == 0 {
+                self.protected.remove(hash);
+            }
+        }
+    }
 }
 
 /// A read-only view of the index state.
@@ -207,10 +259,14 @@ where
     K: Clone + Eq + Ord + std::hash::Hash,
 {
     fn drop(&mut self) {
+        let mut intents = self.index.pending_intents.lock();
+
+        // Committed or not, this commit no longer needs its blob to be protected: either the
+        // index references it by now, or the commit is abandoned.
+        intents.unprotect(&self.hash);
+
         if !self.committed {
             // Revert: Remove our intent from pending_intents
-            let mut intents = self.index.pending_intents.lock();
-
             if let Some(current_hash) = intents.get(&self.key)
                 && *current_hash == self.hash
             {
@@ -255,7 +311,7 @@ where
             paths,
             state,
             wal: Mutex::new(wal_manager),
-            pending_intents: Mutex::new(HashMap::default()),
+            pending_intents: Mutex::new(PendingIntents::default()),
         };
 
         // Only checkpoint after replay if we actually replayed something
@@ -287,6 +343,7 @@ where
 
         // Insert the new intent
         intents.insert(key.clone(), meta.blob_hash);
+        intents.protect(meta.blob_hash);
 
         Ok(IntentGuard {
             index: self,
@@ -318,9 +375,8 @@ where
 
         intents.remove(&key);
 
-        // Filter out any unreferenced hashes that are still referenced by other intents
-        unreferenced_from_op
-            .retain(|hash| !intents.values().any(|intent_hash| intent_hash == hash));
+        // Filter out any unreferenced hashes that in-flight commits still need
+        unreferenced_from_op.retain(|hash| !intents.is_protected(hash));
 
         // Delete blobs BEFORE any checkpoint
         if !unreferenced_from_op.is_empty() {
@@ -354,9 +410,8 @@ where
             (hashes, rolled)
         };
 
-        // Remove any unreferenced hashes that are still referenced by intents
-        unreferenced_from_op
-            .retain(|hash| !intents.values().any(|intent_hash| intent_hash == hash));
+        // Remove any unreferenced hashes that in-flight commits still need
+        unreferenced_from_op.retain(|hash| !intents.is_protected(hash));
 
         // Delete blobs BEFORE any checkpoint
         if !unreferenced_from_op.is_empty() {
